@@ -799,7 +799,7 @@ func (e *Engine) callFunction(st *State, fr *Frame, fn *ssa.Function, args []Val
 func allowedStdPkg(path string) bool {
 	switch path {
 	case "encoding/binary", "bytes", "net", "net/netip", "strconv", "strings", "unicode/utf8", "errors",
-		"math/bits", "encoding/hex", "internal/bytealg", "internal/byteorder", "internal/itoa", "internal/stringslite", "unicode", "slices", "sort", "cmp", "math":
+		"math/bits", "encoding/hex", "io", "internal/bytealg", "internal/byteorder", "internal/itoa", "internal/stringslite", "unicode", "slices", "sort", "cmp", "math":
 		return true
 	}
 	return false
@@ -975,6 +975,13 @@ func (e *Engine) step(st *State, fr *Frame, ins ssa.Instruction, idx int, q *pqu
 					e.forkOnValue(st, fr, b, len(sv.B), idx, q, exits)
 					return false
 				}
+			}
+		}
+		if sl, isSlice := e.get(fr, x.X).(SliceV); isSlice && x.Low != nil {
+			// a symbolic low bound changes the slice's window: case split on its feasible values
+			if t, ok := e.get(fr, x.Low).(*Term); ok && !t.IsConst() {
+				e.forkOnValue(st, fr, x.Low, sl.Cap, idx, q, exits)
+				return false
 			}
 		}
 		v, ok := e.sliceOp(st, fr, x, exits)
